@@ -267,6 +267,45 @@ fn check_typed_positions(i: i64) -> CaseResult {
         }
         Err(_) => ensure!(!ok, "claim key {} rejected though registered or private", i),
     }
+    // two adjacent integers as names in one map: each is classified on its own (a registered or
+    // private-use neighbour does not turn a name into a repeat of it, nor hide it)
+    let j = if i == i64::MAX { i - 1 } else { i + 1 };
+    let claim_ok = |x: i64| reg::registered(reg::CWT_CLAIM_NAME, x) || is_private(x);
+    if claim_ok(i) && claim_ok(j) && !(1..=7).contains(&i) && !(1..=7).contains(&j) {
+        for (a, b) in [(i, j), (j, i)] {
+            let bytes = m(vec![(Item::Int(a as i128), Item::Null), (Item::Int(b as i128), Item::Int(1))]);
+            match ClaimsSet::from_slice(&bytes) {
+                Ok(c) => {
+                    ensure!(c.rest.len() == 2, "claims set with the names {} and {} decoded to {} claims", a, b, c.rest.len());
+                    for (k, want) in [(0usize, a), (1, b)] {
+                        let l = crate::model::claim_name_to_l(&c.rest[k].0)?;
+                        ensure!(l == L::Int(want), "claims set with the names {} and {}: claim {} decoded as {:?}", a, b, k, l);
+                    }
+                }
+                Err(e) => fail!("claims set with the two distinct registered / private-use names {} and {} rejected: {:?}", a, b, e),
+            }
+        }
+    }
+    if !(1..=7).contains(&i) && !(1..=7).contains(&j) {
+        let bytes = m(vec![(Item::Int(i as i128), Item::Null), (Item::Int(j as i128), Item::Int(1))]);
+        match Header::from_slice(&bytes) {
+            Ok(h) => ensure!(h.rest.len() == 2 && h.rest[0].0 == coset::Label::Int(i) && h.rest[1].0 == coset::Label::Int(j), "header with the labels {} and {} decoded with extras {:?}", i, j, h.rest),
+            Err(e) => fail!("header with the two distinct labels {} and {} rejected: {:?}", i, j, e),
+        }
+    }
+    let alg_j = reg::registered(reg::ALGORITHM, j) || is_private(j);
+    if alg_ok && alg_j {
+        // a header and its counter-signature naming neighbouring algorithms
+        let cs = Item::Array(vec![Item::Bytes(vec![]), Item::Map(vec![(Item::Int(1), Item::Int(j as i128))]), Item::Bytes(vec![1])]);
+        match Header::from_slice(&m(vec![(Item::Int(1), n.clone()), (Item::Int(7), cs)])) {
+            Ok(h) => {
+                let l = crate::model::alg_to_l(h.alg.as_ref().ok_or("alg absent")?)?;
+                let l2 = crate::model::alg_to_l(h.counter_signatures.first().and_then(|c| c.unprotected.alg.as_ref()).ok_or("nested alg absent")?)?;
+                ensure!(l == L::Int(i) && l2 == L::Int(j), "algorithms {} and {} in a header and its counter-signature decoded as {:?} and {:?}", i, j, l, l2);
+            }
+            Err(e) => fail!("header with algorithm {} whose counter-signature names algorithm {} rejected: {:?}", i, j, e),
+        }
+    }
     Ok(())
 }
 
